@@ -202,6 +202,11 @@ example :
       { status := 200, hdr := { ce := gz, cl := none, varyAE := true, etag := .weak },
         body := .layer .gzip (.raw [1, 2, 3]), blen := none } := by decide
 
+/-- non-vacuity of `C18_no_double_encoding`'s hypothesis: zstd, an unknown coding and upper-case
+GZIP all count as "already encoded"; absent and identity do not -/
+example : unencoded Coding.zstd.name = false ∧ unencoded [120, 45, 102, 111, 111] = false ∧
+    unencoded [71, 90, 73, 80] = false ∧ unencoded [] = true ∧ unencoded identityB = true := by decide
+
 /-- test: the zstd sibling case of F13 is left alone -/
 example :
     gzipRun [{ exts := [[46, 116, 120, 116]], nots := [], minLen := 0 }] txt (Coding.zstd.name ++ [44, 32] ++ gz)
